@@ -224,7 +224,7 @@ def c_ordering(c, n, directives):
 
 # ---- C05: priorities and guards -------------------------------------------------------------------------------------
 def soft_shapes(tier, seed):
-    return [("flat", 3), ("if", 1), ("ifelse", 1), ("implies", 1), ("nested", 1), ("inline", 2)]
+    return [("flat", 3), ("if", 1), ("ifelse", 1), ("implies", 1), ("nested", 1), ("inline", 2), ("elseif", 1), ("implies_in_if", 1)]
 
 
 @contract("rand_info_builder.soft_priority", ["C05"],
@@ -278,6 +278,17 @@ def c_soft_priority(c, shape, k):
         stmts = [hard, ConstraintIfElseModel(g1, ConstraintScopeModel([softs[2]]), ConstraintScopeModel([inner]))]
         softs = [softs[2], softs[0], softs[1]]
         exp_guards = [[("pos", g1)], [("neg", g1), ("pos", g2)], [("neg", g1), ("neg", g2)]]
+    elif shape == "elseif":
+        # the chain vsc.else_if builds: false_c is the next if/else statement itself (no scope in between)
+        g3 = cmp(B, "Ne", 4)
+        chain = ConstraintIfElseModel(g1, ConstraintScopeModel([softs[0]]),
+                                      ConstraintIfElseModel(g2, ConstraintScopeModel([softs[1]]),
+                                                            ConstraintIfElseModel(g3, ConstraintScopeModel([softs[2]]), None)))
+        stmts = [hard, chain]
+        exp_guards = [[("pos", g1)], [("neg", g1), ("pos", g2)], [("neg", g1), ("neg", g2), ("pos", g3)]]
+    elif shape == "implies_in_if":
+        stmts = [hard, ConstraintIfElseModel(g1, ConstraintScopeModel([ConstraintImpliesModel(g2, [softs[0]]), softs[1]]), None), softs[2]]
+        exp_guards = [[("pos", g1), ("pos", g2)], [("pos", g1)], []]
     else:
         stmts = [hard, softs[0], softs[1]]
         inline = [ConstraintBlockModel("inline", [softs[2]])]
